@@ -1030,14 +1030,15 @@ theorem gen_export_options_eq_ref :
 
 /-- **the loaders' stores into `FileInfo`**: the encoding is refined by `DetectInSpecifiedEncoding` for
     EVERY named encoding (C02-m10 skipped the refinement for UTF16), the line break and the enclosure are
-    what the reader detected, JSON files are UTF-8 with the detected escape type and line break. -/
+    what the reader detected AFTER the records have been read (C02-m4 stored the line break before, when a
+    header-less file has shown none yet), JSON files are UTF-8 with the detected escape type and line break. -/
 theorem gen_loader_stores_eq_ref :
     loaderStores =
-  [("loadViewFromCSVFile", [("Delimiter", "'\\t'", "fileInfo.Format == option.TSV"), ("Encoding", "enc := text.DetectInSpecifiedEncoding(fileHead, fileInfo.Encoding)", ""), ("LineBreak", "reader.DetectedLineBreak", "reader.DetectedLineBreak != \"\""), ("EncloseAll", "reader.EnclosedAll", "")]),
-   ("loadViewFromFixedLengthTextFile", [("Encoding", "enc := text.DetectInSpecifiedEncoding(fileHead, fileInfo.Encoding)", ""), ("LineBreak", "reader.DetectedLineBreak", "reader.DetectedLineBreak != \"\"")]),
-   ("loadViewFromLTSVFile", [("Encoding", "enc := text.DetectInSpecifiedEncoding(fileHead, fileInfo.Encoding)", ""), ("LineBreak", "reader.DetectedLineBreak", "reader.DetectedLineBreak != \"\"")]),
-   ("loadViewFromJsonFile", [("LineBreak", "lb := lineBreakDetector.LineBreak()", "lb := lineBreakDetector.LineBreak(); lb != \"\""), ("Encoding", "text.UTF8", ""), ("JsonEscape", "escapeType := json.LoadTable(fileInfo.JsonQuery, string(jsonText))", "")]),
-   ("loadViewFromJsonLinesFile", [("LineBreak", "lb := lineBreakDetector.LineBreak()", "lb := lineBreakDetector.LineBreak(); lb != \"\""), ("Encoding", "text.UTF8", ""), ("JsonEscape", "escapeType := txjson.Backslash", "")])] :=
+  [("loadViewFromCSVFile", [("Delimiter", "'\\t'", "fileInfo.Format == option.TSV", "before the records are read"), ("Encoding", "enc := text.DetectInSpecifiedEncoding(fileHead, fileInfo.Encoding)", "", "before the records are read"), ("LineBreak", "reader.DetectedLineBreak", "reader.DetectedLineBreak != \"\"", "after the records are read"), ("EncloseAll", "reader.EnclosedAll", "", "after the records are read")]),
+   ("loadViewFromFixedLengthTextFile", [("Encoding", "enc := text.DetectInSpecifiedEncoding(fileHead, fileInfo.Encoding)", "", "before the records are read"), ("LineBreak", "reader.DetectedLineBreak", "reader.DetectedLineBreak != \"\"", "after the records are read")]),
+   ("loadViewFromLTSVFile", [("Encoding", "enc := text.DetectInSpecifiedEncoding(fileHead, fileInfo.Encoding)", "", "before the records are read"), ("LineBreak", "reader.DetectedLineBreak", "reader.DetectedLineBreak != \"\"", "after the records are read")]),
+   ("loadViewFromJsonFile", [("LineBreak", "lb := lineBreakDetector.LineBreak()", "lb := lineBreakDetector.LineBreak(); lb != \"\"", "after the records are read"), ("Encoding", "text.UTF8", "", "after the records are read"), ("JsonEscape", "escapeType := json.LoadTable(fileInfo.JsonQuery, string(jsonText))", "", "after the records are read")]),
+   ("loadViewFromJsonLinesFile", [("LineBreak", "lb := lineBreakDetector.LineBreak()", "lb := lineBreakDetector.LineBreak(); lb != \"\"", "after the records are read"), ("Encoding", "text.UTF8", "", "after the records are read"), ("JsonEscape", "escapeType := txjson.Backslash", "", "after the records are read")])] :=
   rfl
 
 /-- which options reach the go-text writers -/
